@@ -449,6 +449,73 @@ def r11_8(ctx, fx):
                detail="branch index of shutdown_rx.recv(): %s, of command_rx.recv(): %s" % (close, cmd))
 
 
+def r11_9(ctx, fx):
+    """the substream whose failure is being handled is never remembered as still pending: every `PeerState::Closed` stored by
+    on_substream_open_failure has `pending_open: None`.  (`pending_open: Some(id)` makes the next open request 'reuse' an id for which
+    no event will ever arrive - the request is never answered - and makes on_inbound_substream refuse every inbound substream.)"""
+    fn = ctx.fn(fx, NP + "on_substream_open_failure::{closure#0}", "R11.9")
+    if fn is None:
+        return
+    aggs = [(n, s_) for n, s_ in fn.aggregates(r"notification::PeerState$", "Closed")]
+    ctx.anchor("R11.9", "on_substream_open_failure: Closed aggregates", len(aggs), 3, cfg=fx.cfg)
+    # keyed by the sub-state the arm came from (stable under reordering), falling back to the index
+    for i, (n, s_) in enumerate(aggs):
+        sh = fn.shape(s_["rv"]["ops"][0])
+        arm = "?"
+        for sw in fn.discr_switches():
+            if sw[2].endswith("notification::PeerState"):
+                for v in list(sw[3]) + list(sw[5]):
+                    labs = fn.variant_edges(sw, v)
+                    if labs and fn.only_via(n, sw[0], labs):
+                        arm = v
+        ctx.ob("R11.9", "on_substream_open_failure/from-%s:stores-Closed{pending_open:None}" % arm, sh == {"None"}, site=fn.site(n), cfg=fx.cfg,
+               detail="pending_open stored: %s" % sorted(sh))
+
+
+def r11_10(ctx, fx):
+    """an answer of the user is applied only to the inbound substream it was asked about.  Either (A) answers carry the identity of their
+    request (the futures in pending_validations yield more than (peer, result) and the receiver compares it), or (B) a peer whose
+    inbound substream awaits an answer is parked as ValidationPending whenever that substream is discarded, so that no second request
+    can be outstanding.  With neither, a late Accept of request #1 opens the substream of request #2 although the user rejects it."""
+    a = fx.adts.get("protocol::notification::NotificationProtocol") or {}
+    ty = [f.get("ty", "") for v in a.get("variants", []) for f in v.get("fields", []) if f.get("name") == "pending_validations"]
+    ctx.anchor("R11.10", "NotificationProtocol.pending_validations", len(ty), 1, cfg=fx.cfg)
+    m = re.search(r"Output = \((.*?)\)> \+", ty[0]) if ty else None
+    comps = [c.strip() for c in m.group(1).split(",")] if m else []
+    tagged = len(comps) >= 3 or any(c and "PeerId" not in c and "ValidationResult" not in c for c in comps)
+    # (B): every leave of Validating with the inbound sub-state possibly `Validating` (awaiting the answer) stores ValidationPending
+    parked_everywhere = True
+    witnesses = []
+    for key in sorted(fx.find(r"^protocol::notification::NotificationProtocol::on_(connection_closed|substream_open_failure|handshake_event)::\{closure#0\}$")):
+        fn = fx.fn(key)
+        sws = [sw for sw in fn.discr_switches() if sw[2].endswith("notification::PeerState") and "Validating" in sw[3]]
+        region = set()
+        for sw in sws:
+            region |= fn.reach([n_ for n_, l in fn.succs(sw[0]) if l in fn.variant_edges(sw, "Validating")])
+        leaves = [nd for nd, _ in fn.aggregates(r"notification::PeerState$", "Closed") if nd in region]
+        leaves += [c.node for c in fn.calls(r"HashMap(<.*>)?::remove$") if c.node in region and ".peers" in fn.recv(c)]
+        if not leaves:
+            continue
+        pinned = set()
+        for sw in fn.discr_switches():
+            if re.search(r"@Validating\.inbound$", fn.origin({"c": list(sw[1])})):
+                node, place, adt, mm, other, other_vars = sw
+                for v, lab in mm.items():
+                    if v != "Validating":
+                        pinned.add((node, lab))
+                if other_vars and "Validating" not in other_vars:
+                    pinned.add((node, other))
+        vp = [nd for nd, _ in fn.aggregates(r"notification::PeerState$", "ValidationPending")]
+        for nd in leaves:
+            not_waiting = bool(pinned) and nd not in fn.reach([fn.entry], cut=pinned)
+            if not not_waiting:
+                parked_everywhere = False
+                witnesses.append("%s@%s" % (short(key), fn.site(nd)))
+    ctx.ob("R11.10", "validation-answers-are-matched-to-their-request", tagged or parked_everywhere, cfg=fx.cfg,
+           detail="(A) answers tagged: %s (future output %s); (B) inbound awaiting an answer is never discarded without parking: %s, leaves that may discard it: %s"
+                  % (tagged, comps, parked_everywhere, witnesses[:6]))
+
+
 def run(ctx):
     fx = ctx.facts("default")
     r11_6(ctx, fx)
@@ -459,5 +526,7 @@ def run(ctx):
     r11_5(ctx, fx)
     r11_7(ctx, fx)
     r11_8(ctx, fx)
+    r11_9(ctx, fx)
+    r11_10(ctx, fx)
     ctx.assume("arms ending in debug_assert!(false) diverge in the analysed profile and are not exits (stated beliefs of the developers)")
     ctx.assume("a dropped oneshot shutdown sender also wakes the connection task (Receiver resolves with Err), which closes silently")
